@@ -216,10 +216,14 @@ impl GitConfigGet for Option<String> {
 
 impl GitConfigGet for bool {
     fn git_config_get(key: &str, git_config: &GitConfig) -> Option<Self> {
-        match git_config.config_from_env_var.get(key).map(|s| s.as_str()) {
-            Some("true") => Some(true),
-            Some("false") => Some(false),
-            _ => git_config.config.get_bool(key).ok(),
+        // (git's own spellings: true/yes/on/1 and false/no/off/0, in any letter case)
+        match git_config
+            .config_from_env_var
+            .get(key)
+            .and_then(|s| git2::Config::parse_bool(s.as_str()).ok())
+        {
+            Some(value) => Some(value),
+            None => git_config.config.get_bool(key).ok(),
         }
     }
 }
